@@ -11,6 +11,8 @@ def val_tok(v):
     k, x = v
     if k == "u":
         return f"u{x}"
+    if k == "e":
+        return "e"
     return k + gen.hexb(x)
 
 
@@ -35,6 +37,8 @@ def payload(v):
         return gen.head(0, x)
     if k == "b":
         return gen.head(2, len(x)) + x
+    if k == "e":
+        return b""                       # a value whose Encode impl writes nothing: an empty payload, still a frame
     return None
 
 
